@@ -299,3 +299,20 @@ Theorem C16_base_config_wiring : forall (zl zs tE sE gm sg re sre : R) (ap see n
         /\ In (VTuple [VStr "kwargs_seeing"; see]) rest /\ In (VTuple [VStr "kwargs_aperture"; ap]) rest).
 Proof. intros. apply base_config_wiring. assumption. Qed.
 Print Assumptions C16_base_config_wiring.
+
+(* KinConstraints.__init__: measurement and error specifications stored as given; the base class gets its twelve positional numbers in its own
+   order and the scaling axes by keyword *)
+Theorem C16_kin_constraints_constructor : forall (zl zs tE sE gm sg re sre : R) (ap see numk light gpl sv ind cov cm gin lm : val) rg cu,
+  exists o log,
+  yields Gk 120 (CClass "KinConstraints" src_KinConstraints_init) None
+    [num zl; num zs; num tE; num sE; num gm; num sg; num re; num sre; sv; ap; see; numk; VStr "GOM"]
+    [("sigma_v_error_independent", ind); ("sigma_v_error_covariant", cov); ("sigma_v_error_cov_matrix", cm); ("kwargs_lens_light", light);
+     ("gamma_in_scaling", gin); ("log_m2l_scaling", lm); ("gamma_pl_scaling", gpl)] rg cu o cu log
+  /\ fld o "_sigma_v_measured" = Some (arr sv) /\ fld o "_sigma_v_error_independent" = Some (arr ind)
+  /\ fld o "_sigma_v_error_covariant" = Some cov /\ fld o "_sigma_v_error_cov_matrix" = Some cm
+  /\ fld o "_kwargs_lens_light" = Some light /\ fld o "_anisotropy_model" = Some (VStr "GOM")
+  /\ (exists rest, log = [("BaseLensConfig.__init__", num zl :: num zs :: num tE :: num sE :: num gm :: num sg :: num re :: num sre :: ap :: see :: numk :: VStr "GOM" :: rest)]
+        /\ In (VTuple [VStr "kwargs_lens_light"; light]) rest /\ In (VTuple [VStr "gamma_in_scaling"; gin]) rest
+        /\ In (VTuple [VStr "log_m2l_scaling"; lm]) rest /\ In (VTuple [VStr "gamma_pl_scaling"; gpl]) rest).
+Proof. intros. apply kin_constraints_ctor_wiring. Qed.
+Print Assumptions C16_kin_constraints_constructor.
